@@ -127,7 +127,8 @@ def merge_max(dst, src):
 def main(mod_name, argv=None):
     mod = importlib.import_module(mod_name)
     ap = argparse.ArgumentParser(prog=f'check {mod.ID}')
-    ap.add_argument('--tier', default=os.environ.get('VERIF_TIER', 'quick'),
+    env_tier = os.environ.get('VERIF_TIER', 'quick')
+    ap.add_argument('--tier', default=env_tier if env_tier in ('quick', 'thorough') else 'quick',
                     choices=('quick', 'thorough'))
     ap.add_argument('--replay')
     ap.add_argument('--cases', type=int)
